@@ -257,10 +257,10 @@ class BleRawPduReceived(PbMessageWrapper):
     """
     direction = PbFieldInt("ble.raw_pdu.direction")
     channel = PbFieldInt("ble.raw_pdu.channel")
-    rssi = PbFieldInt("ble.raw_pdu.rssi")
-    timestamp = PbFieldInt("ble.raw_pdu.timestamp")
-    relative_timestamp = PbFieldInt("ble.raw_pdu.relative_timestamp")
-    crc_validity = PbFieldBool("ble.raw_pdu.crc_validity")
+    rssi = PbFieldInt("ble.raw_pdu.rssi", optional=True)
+    timestamp = PbFieldInt("ble.raw_pdu.timestamp", optional=True)
+    relative_timestamp = PbFieldInt("ble.raw_pdu.relative_timestamp", optional=True)
+    crc_validity = PbFieldBool("ble.raw_pdu.crc_validity", optional=True)
     access_address = PbFieldInt("ble.raw_pdu.access_address")
     pdu = PbFieldBytes("ble.raw_pdu.pdu")
     crc = PbFieldInt("ble.raw_pdu.crc")
@@ -309,20 +309,28 @@ class BleRawPduReceived(PbMessageWrapper):
             else:
                 return None
 
-            return BleRawPduReceived(
+            msg = BleRawPduReceived(
                 pdu=pdu,
                 access_address=BTLE(raw(packet)).access_addr,
                 crc=BTLE(raw(packet)).crc,
                 direction=packet.metadata.direction,
                 conn_handle=packet.metadata.connection_handle,
                 channel=packet.metadata.channel,
-                rssi=packet.metadata.rssi,
-                timestamp=packet.metadata.timestamp,
-                crc_validity=packet.metadata.is_crc_valid,
-                relative_timestamp=packet.metadata.relative_timestamp,
                 decrypted=packet.metadata.decrypted,
                 processed=packet.metadata.processed
             )
+
+            # Add optional metadata (only when present)
+            if packet.metadata.rssi is not None:
+                msg.rssi = packet.metadata.rssi
+            if packet.metadata.timestamp is not None:
+                msg.timestamp = packet.metadata.timestamp
+            if packet.metadata.is_crc_valid is not None:
+                msg.crc_validity = packet.metadata.is_crc_valid
+            if packet.metadata.relative_timestamp is not None:
+                msg.relative_timestamp = packet.metadata.relative_timestamp
+
+            return msg
 
         return None
 
